@@ -38,12 +38,12 @@ static void predicates(const std::string& key, const std::vector<CL>& a, const s
         long double res = std::abs(polyAt(a, z)), sc = polyScaleAt(a, z);
         CL dp = 0; for (int i = 0; i < n; ++i) dp = dp * z + a[i] * (long double)(n - i);
         long double den = std::abs(z) * std::abs(dp);
-        long double kappa = den > 0 ? sc / den : INFINITY;
+        long double kappa = den > 0 ? std::min<long double>(sc / den, 1e6L) : 1e6L;   // capped: even at a multiple root the residual must stay within C*n*eps*1e6*S
         kmax = std::max(kmax, kappa);
         worst = std::max(worst, (double)(res / (sc > 0 ? sc : 1) / (1 + kappa)));
     }
     vh::P("residual_rel", key + ".residual", nan ? NAN : worst, C * n * eps);
-    C *= (double)std::min<long double>(1 + kmax, 1e300L);   // Vieta bounds scale with the worst root conditioning
+    C *= (double)(1 + kmax);   // Vieta bounds scale with the worst root conditioning
     // Vieta: sum of roots = -a1/a0, product = (-1)^n an/a0
     CL sum = 0, prod = 1; long double sabs = 0, pabs = 1;
     for (auto z : r) { sum += z; prod *= z; sabs += std::abs(z); pabs *= std::abs(z); }
